@@ -776,3 +776,14 @@ mod test {
         huffman::decode(src, &mut buf).unwrap()
     }
 }
+
+// ===== verification hook (feature `verif-hooks`, off by default; add-only) =====
+
+#[cfg(feature = "verif-hooks")]
+impl Encoder {
+    /// Read-only view of the dynamic table for the out-of-tree verification
+    /// harness: entries (newest first) as (name, value) octets, `size`, `max_size`.
+    pub fn verif_table(&self) -> (Vec<(Vec<u8>, Vec<u8>)>, usize, usize) {
+        self.table.verif_view()
+    }
+}
